@@ -15,6 +15,16 @@ def _impl(o):
         return pd.py_parse(o["s"])
     if o["op"] == "pep_str":
         return pd.py_str(o["s"])
+    if o["op"] == "pep_groups":
+        # the groups of the REAL regular expression (IGNORECASE: spelling lower-cased, as the model's matcher does)
+        from bumpver import setuptools_v65_version as sv
+        if any(ord(c) > 127 for c in o["s"]):
+            return {"unsupported": 1}
+        m = sv.Version._regex.search(o["s"])
+        if m is None:
+            return {"ok": None}
+        low = lambda x: None if x is None else x.lower()
+        return {"ok": {k: low(m.group(k)) for k in ("epoch", "release", "pre_l", "pre_n", "post_n1", "post_l", "post_n2", "dev_l", "dev_n", "local")}}
     return pd.py_cmp(o["a"], o["b"])
 
 
@@ -30,6 +40,7 @@ def run(chk, driver, tier):
     for s in strings:
         ops.append({"op": "pep_parse", "s": s})
         ops.append({"op": "pep_str", "s": s})
+        ops.append({"op": "pep_groups", "s": s})      # hypothesis SearchOk of the Version.__init__ ties: the model's matcher = VERSION_PATTERN
     for a, b in pairs:
         ops.append({"op": "pep_cmp", "a": a, "b": b})
     chk.correspond(ops, _impl, driver)
